@@ -1,5 +1,6 @@
 import Snel.Model.Auth
 /-! Helper lemmas about the authentication / authorisation model (`Snel.Model.Auth`). -/
+set_option linter.unusedSimpArgs false
 namespace Snel.Auth
 open Snel.Gen.C13
 
